@@ -20,7 +20,8 @@ Record sim (o : ostate) (s : state) : Prop := {
   sim_resets : forall c, o_resets o c = resets s c;
   sim_target : forall t, pcof s t <> Idle -> o_target o t = caof s t;
   sim_last : forall t, last_rel (o_last o t) (pcof s t);
-  sim_oke : o_ok_e o = true
+  sim_oke : o_ok_e o = true;
+  sim_okd : o_ok_d o = true
 }.
 
 Lemma sim_init : sim oinit init.
@@ -54,7 +55,7 @@ Lemma sim_step_env o s e s1 :
   sim o s -> step s (label_of e) = Some s1 ->
   match e with EOp _ _ _ _ _ => False | _ => True end -> sim (ostep o e) s1.
 Proof.
-  intros [S1 S2 S3 S4 S5 S6 S7 S8 S9 S10] H He. destruct e as [t c|t f k kc v|t|c]; [|contradiction| |]; cbn in H.
+  intros [S1 S2 S3 S4 S5 S6 S7 S8 S9 S10 S11] H He. destruct e as [t c|t f k kc v|t|c]; [|contradiction| |]; cbn in H.
   - (* Start *)
     step_cases H; pc_tests. split; cbn; auto.
     + intros t0 Ht0. unfold upd in *. destruct (Nat.eqb_spec t0 t); subst; cbn in *; auto.
@@ -121,10 +122,10 @@ Lemma ov_pos a : 1 <= a -> ov a = Some a.
 Proof. destruct a; [lia|reflexivity]. Qed.
 
 Lemma sim_step_op o s t f k kc v s1 :
-  WF s -> sim o s -> step s (Op t f) = Some s1 -> expected s t f = Some (k, kc, v) ->
+  WF s -> G s -> DD s -> sim o s -> step s (Op t f) = Some s1 -> expected s t f = Some (k, kc, v) ->
   sim (ostep o (EOp t f k kc v)) s1.
 Proof.
-  intros [_ HW] [S1 S2 S3 S4 S5 S6 S7 S8 S9 S10] H He. pose proof (HW t) as HWt.
+  intros [_ HW] HG HDD [S1 S2 S3 S4 S5 S6 S7 S8 S9 S10 S11] H He. pose proof (HW t) as HWt.
   assert (Hni : pcof s t <> Idle) by (intros X; unfold expected in He; rewrite X in He; discriminate).
   pose proof (S8 t Hni) as Ht. pose proof (S9 t) as L.
   destruct (o_last o t) as [lk lf] eqn:El. pose proof (rollback_flag _ _ _ L) as RB.
@@ -145,9 +146,19 @@ Proof.
   all: try (intros c; unfold upd; destruct (Nat.eqb c (caof s t)); rewrite ?S2, ?S4, ?S6; reflexivity).
   all: try (cbn in HWt; unfold ok in HWt; rewrite ov_pos by lia).
   all: try (intros c; unfold upd; destruct (Nat.eqb c (caof s t)); rewrite ?S1; reflexivity).
-  (* DelKey also sets the attempt counter *)
-  intros t0 Ht0. unfold upd in *. destruct (Nat.eqb_spec t0 t); subst; cbn in *; auto.
-  rewrite Nat.eqb_refl. cbn. exact Ht.
+  all: try (rewrite S11; reflexivity).
+  - (* deleteAccountLocally, reg file: the stored account is the one the CA has forgotten *)
+    destruct (HDD t) as (_ & D2 & _). destruct (D2 m Hpc) as [Dr Dk].
+    pose proof (HG t m) as X. rewrite Hpc in X. specialize (X eq_refl).
+    rewrite S11, S1, S3, Dr, Dk. cbn. apply Bool.andb_true_iff. split; [|reflexivity].
+    apply Nat.leb_le. exact X.
+  - (* deleteAccountLocally, key file: the reg file is gone *)
+    destruct (HDD t) as (_ & _ & D3). unfold has_reg. rewrite S11, S1, (D3 m Hpc). reflexivity.
+  (* DUnlock also sets the attempt counter (Unlock failed / succeeded) *)
+  - intros t0 Ht0; unfold upd in *; destruct (Nat.eqb_spec t0 t); subst; cbn in *; auto;
+      rewrite Nat.eqb_refl; cbn; exact Ht.
+  - intros t0 Ht0; unfold upd in *; destruct (Nat.eqb_spec t0 t); subst; cbn in *; auto;
+      rewrite Nat.eqb_refl; cbn; exact Ht.
 Qed.
 
 Lemma triple_eqb_eq a b : triple_eqb a b = true -> a = b.
@@ -170,7 +181,9 @@ Proof.
     destruct e as [t c|t f k kc v|t|c].
     + apply (sim_step_env o s (EStart t c) s2 Hs Es I).
     + destruct (expected s t f) as [x|] eqn:Ex; [|discriminate]. apply triple_eqb_eq in Hok. subst x.
-      eapply sim_step_op; try eassumption. exact (inv_wf _ (Inv_reachable _ Hr)).
+      pose proof (Inv2_reachable _ Hr) as I2.
+      eapply sim_step_op; try eassumption;
+        [exact (inv_wf _ (Inv_reachable _ Hr))|exact (inv2_g _ I2)|exact (inv2_dd _ I2)].
     + apply (sim_step_env o s (ECrash t) s2 Hs Es I).
     + apply (sim_step_env o s (EReset c) s2 Hs Es I).
 Qed.
@@ -185,12 +198,13 @@ Definition res_agree (s : state) (f : final) : bool :=
 Lemma spec_cas_ok o s f : reachable s -> sim o s -> res_agree s f = true ->
   forall l c, cas_agree s c l = true -> spec_cas o f c l = true.
 Proof.
-  intros Hr [S1 S2 S3 S4 S5 S6 S7 S8 S9 S10] Hres. induction l as [|[[cr rg] ky] l IH]; intros c H; cbn in *.
+  intros Hr [S1 S2 S3 S4 S5 S6 S7 S8 S9 S10 S11] Hres. induction l as [|[[cr rg] ky] l IH]; intros c H; cbn in *.
   - reflexivity.
   - apply Bool.andb_true_iff in H. destruct H as [H Hl]. apply Bool.andb_true_iff in H. destruct H as [H Hk].
     apply Bool.andb_true_iff in H. destruct H as [Hc Hg]. apply Nat.eqb_eq in Hc, Hg, Hk. subst cr rg ky.
     rewrite (IH _ Hl), Bool.andb_true_r. rewrite S4, S5, S6, S7.
-    apply Bool.andb_true_iff. split; [apply Bool.andb_true_iff; split|].
+    apply Bool.andb_true_iff. split; [apply Bool.andb_true_iff; split; [apply Bool.andb_true_iff; split|]|].
+    + apply Nat.leb_le. apply registrations_bounded_by_reinstallations. exact Hr.
     + apply Nat.leb_le. apply registrations_bounded. exact Hr.
     + destruct (Nat.eqb_spec (deletes s c) 0) as [Hd|Hd]; [|reflexivity]. cbn.
       destruct (s_key (slots s c)) as [k|] eqn:Ek; [|reflexivity].
@@ -199,7 +213,8 @@ Proof.
       pose proof (no_reset_no_delete s c Hr Hz) as Hd. rewrite Hd. cbn.
       apply forallb_forall. intros [t [lo k]] Hin.
       unfold res_agree in Hres. rewrite forallb_forall in Hres. specialize (Hres _ Hin). cbn in Hres.
-      destruct (pcof s t) as [| | | | | | | | | | | |[m|]] eqn:Hp; cbn in Hres; try discriminate.
+      destruct (pcof s t) eqn:Hp; cbn in Hres; try discriminate.
+      destruct res as [m|].
       * apply Bool.andb_true_iff in Hres. destruct Hres as [E1 E2]. apply Nat.eqb_eq in E1, E2. subst lo k.
         rewrite (S8 t) by (rewrite Hp; discriminate).
         destruct (Nat.eqb_spec (caof s t) c) as [Hc|Hc]; [|reflexivity]. cbn.
@@ -209,147 +224,130 @@ Proof.
         cbn. rewrite Bool.orb_true_r. reflexivity.
 Qed.
 
-(** the monitor's clauses (a) registrations bounded, (b) persisted together, (c) reuse of the
-    stored account, (e) only the directory in use is touched, hold on every history on which
-    the model and the observation agree *)
+(** a thread leaves [Idle] only by its Start *)
+Lemma idle_step s l s1 t :
+  step s l = Some s1 -> pcof s t = Idle -> (forall c, l <> Start t c) -> pcof s1 t = Idle.
+Proof.
+  intros H Hi Hl. destruct l as [t1 c1|t1 f1|t1|c1].
+  - destruct (Nat.eq_dec t1 t) as [->|Hne]; [exfalso; eapply Hl; reflexivity|].
+    step_cases H. cbn. rewrite upd_neq by congruence. exact Hi.
+  - destruct (Nat.eq_dec t1 t) as [->|Hne].
+    + cbn in H. unfold op_step in H. rewrite Hi in H. discriminate.
+    + step_cases H; cbn; rewrite ?upd_neq by congruence; exact Hi.
+  - destruct (Nat.eq_dec t1 t) as [->|Hne].
+    + cbn in H. rewrite Hi in H. discriminate.
+    + cbn in H. destruct (finished (pcof s t1)); [discriminate|]. injection H as <-.
+      cbn. crash_norm. rewrite upd_neq by congruence. exact Hi.
+  - step_cases H. exact Hi.
+Qed.
+
+Lemma started_in_history evs t : forall s s1 b,
+  replay s evs = Some (s1, b) -> pcof s t = Idle -> pcof s1 t <> Idle ->
+  exists c, In (EStart t c) evs.
+Proof.
+  induction evs as [|e r IH]; intros s s1 b H Hi Hn; cbn in H.
+  - injection H as <- _. contradiction.
+  - destruct (step s (label_of e)) as [s2|] eqn:Es; [|discriminate].
+    destruct (replay s2 r) as [[s3 b3]|] eqn:Er; [|discriminate]. injection H as <- _.
+    destruct e as [t1 c1|t1 f1 k1 kc1 v1|t1|c1]; cbn [label_of] in Es.
+    1: destruct (Nat.eq_dec t1 t) as [->|Hne]; [exists c1; left; reflexivity|].
+    all: (destruct (IH s2 s3 b3 Er) as [c Hc]; [|exact Hn|exists c; right; exact Hc]);
+      eapply idle_step; [exact Es|exact Hi|intros c0 X; try discriminate X; congruence].
+Qed.
+
+Lemma replay_run evs : forall s s1 b,
+  replay s evs = Some (s1, b) -> run s (map label_of evs) = Some s1.
+Proof.
+  induction evs as [|e r IH]; intros s s1 b H; cbn in *.
+  - injection H as <- _. reflexivity.
+  - destruct (step s (label_of e)) as [s2|]; [|discriminate].
+    destruct (replay s2 r) as [[s3 b3]|] eqn:Er; [|discriminate]. injection H as <- _.
+    eapply IH. exact Er.
+Qed.
+
+Lemma replay_no_unlock_fault evs : forall s s1,
+  replay s evs = Some (s1, true) -> no_unlock_fault evs = true ->
+  unlock_faults s (map label_of evs) = 0.
+Proof.
+  induction evs as [|e r IH]; intros s s1 H Hn; cbn in *; [reflexivity|].
+  apply Bool.andb_true_iff in Hn. destruct Hn as [Hn Hn'].
+  destruct (step s (label_of e)) as [s2|] eqn:Es; [|discriminate].
+  destruct (replay s2 r) as [[s3 b3]|] eqn:Er; [|discriminate]. injection H as -> Hb.
+  apply Bool.andb_true_iff in Hb. destruct Hb as [Hok ->].
+  rewrite (IH s2 s1 Er Hn'), Nat.add_0_r.
+  destruct e as [t c|t f k kc v|t|c]; cbn; try reflexivity.
+  destruct f; [|reflexivity].
+  destruct (expected s t true) as [x|] eqn:Ex; [|discriminate]. apply triple_eqb_eq in Hok. subst x.
+  unfold expected in Ex.
+  destruct (pcof s t); try reflexivity; cbv zeta in Ex; injection Ex as <- _ _; discriminate Hn.
+Qed.
+
+Lemma spec_lock_ok evs s f :
+  replay init evs = Some (s, true) -> final_agree s f = true -> spec_lock evs f = true.
+Proof.
+  intros Hrep Hf. unfold spec_lock. destruct (all_finished evs f) eqn:Ha; [cbn|reflexivity].
+  destruct (no_unlock_fault evs) eqn:Hnu; [cbn|reflexivity].
+  unfold final_agree in Hf. apply Bool.andb_true_iff in Hf. destruct Hf as [Hf Hl].
+  apply Bool.andb_true_iff in Hf. destruct Hf as [_ Hres].
+  assert (Hq : forall t, finished (pcof s t) = true).
+  { intros t. destruct (pcof s t) eqn:Hp; try reflexivity; exfalso.
+    all: destruct (started_in_history evs t init s true Hrep eq_refl) as [c Hc]; [rewrite Hp; discriminate|].
+    all: unfold all_finished in Ha; rewrite forallb_forall in Ha; specialize (Ha _ Hc); cbn in Ha.
+    all: apply existsb_exists in Ha; destruct Ha as [[t' x] [Hin Ht']]; apply Nat.eqb_eq in Ht'; subst t'.
+    all: rewrite forallb_forall in Hres; specialize (Hres _ Hin); destruct x as [lo k]; cbn in Hres.
+    all: rewrite Hp in Hres; cbn in Hres; discriminate Hres. }
+  rewrite (lock_free_when_quiescent _ s (replay_run _ _ _ _ Hrep) (replay_no_unlock_fault _ _ _ Hrep Hnu) Hq) in Hl.
+  destruct (f_lock_free f); [reflexivity|discriminate Hl].
+Qed.
+
+(** every clause of the monitor — (a) registrations bounded, (b) persisted together, (c) reuse
+    of the stored account, (d) the recreate path deletes only a stored account the CA has
+    forgotten, (e) only the directory in use is touched, (f) the lock is free once nothing is in
+    flight — holds on every history, sequential or
+    concurrent, on which the model and the observation agree *)
 Theorem monitor_sound evs s f :
-  replay init evs = Some (s, true) -> final_agree s f = true ->
-  o_ok_e (orun evs) = true /\ spec_cas (orun evs) f 0 (f_cas f) = true.
+  replay init evs = Some (s, true) -> final_agree s f = true -> spec_hist evs f = true.
 Proof.
   intros Hrep Hf. destruct (replay_sim evs init oinit s) as [Hs Hr]; auto.
   { exists []. reflexivity. } { exact sim_init. }
+  pose proof Hf as Hf0.
   unfold final_agree in Hf. apply Bool.andb_true_iff in Hf. destruct Hf as [Hf _].
   apply Bool.andb_true_iff in Hf. destruct Hf as [Hc Hres].
-  split; [exact (sim_oke _ _ Hs)|]. eapply spec_cas_ok; eassumption.
+  unfold spec_hist. rewrite (spec_lock_ok evs s f Hrep Hf0), Bool.andb_true_r.
+  unfold orun. rewrite (sim_oke _ _ Hs), (sim_okd _ _ Hs). cbn.
+  eapply spec_cas_ok; eassumption.
 Qed.
 
-(** sequential histories: every event is taken while all other threads are idle or finished *)
-Fixpoint seq_hist (s : state) (evs : list event) : Prop :=
-  match evs with
-  | [] => True
-  | e :: r => seq_ok s (label_of e) /\
-              match step s (label_of e) with Some s1 => seq_hist s1 r | None => True end
-  end.
-
-Lemma o_live_proper_sim o s c :
-  sim o s -> o_live_proper o c = true ->
-  exists a, slots s c = Slot (Some a) (Some a) /\ live s c a = true.
-Proof.
-  intros Hs H. unfold o_live_proper in H. rewrite (sim_slots _ _ Hs), (sim_forgotten _ _ Hs), (sim_created _ _ Hs) in H.
-  destruct (slots s c) as [[r|] [k|]]; cbn [s_reg s_key] in H; try discriminate.
-  apply Bool.andb_true_iff in H. destruct H as [H H3]. apply Bool.andb_true_iff in H. destruct H as [H1 H2].
-  apply Nat.eqb_eq in H1. subst k. exists r. split; [reflexivity|]. unfold live. rewrite H2, H3. reflexivity.
-Qed.
-
-Lemma ok_d_step o s t f k kc v s1 :
-  seq_reachable s -> seq_ok s (Op t f) -> sim o s -> step s (Op t f) = Some s1 ->
-  expected s t f = Some (k, kc, v) ->
-  o_ok_d (ostep o (EOp t f k kc v)) = o_ok_d o.
-Proof.
-  intros Hsr Hq Hs Hst He. cbn [ostep]. pose proof (sim_last _ _ Hs t) as L.
-  destruct (o_last o t) as [lk lf] eqn:El. cbn [o_ok_d].
-  pose proof (rollback_flag lk lf (pcof s t) L) as RB.
-  match goal with |- _ && negb ?X = _ => destruct X eqn:EX end; [|apply Bool.andb_true_r].
-  exfalso.
-  apply Bool.andb_true_iff in EX. destruct EX as [EX Hlive]. apply Bool.andb_true_iff in EX. destruct EX as [Hdel Hnf].
-  apply Bool.negb_true_iff in Hnf. subst f.
-  destruct (o_live_proper_sim _ _ _ Hs Hlive) as (a & Hsl & Hlv).
-  apply Bool.andb_true_iff in Hdel. destruct Hdel as [Hk Hnr]. apply Bool.negb_true_iff in Hnr.
-  (* which operation it was *)
-  unfold expected in He.
-  assert (Hkc : kc = caof s t /\ (exists m, pcof s t = DelReg m \/ pcof s t = DelKey m)).
-  { destruct (pcof s t) eqn:Hp; try discriminate; cbv zeta in He; injection He as E1 E2 E3; subst k kc;
-      unfold_ks; cbn in Hk; try discriminate.
-    - (* Rollback: excluded, it is recognised as storeTx's rollback *)
-      cbn in Hnr. unfold_ks. rewrite RB in Hnr. discriminate.
-    - split; eauto.
-    - split; eauto. }
-  destruct Hkc as [-> [m Hm]].
-  assert (Hch : slots s1 (caof s t) <> slots s (caof s t)).
-  { cbn [step] in Hst. unfold op_step in Hst. destruct Hm as [Hm|Hm]; rewrite Hm in Hst; cbv beta iota zeta in Hst;
-      injection Hst as <-; cbn; rewrite upd_eq, Hsl; discriminate. }
-  destruct (replaced_only_if_ca_says_gone_sequential s (Op t false) s1 (caof s t) a Hsr Hq Hst Hsl Hch)
-    as (t' & _ & _ & _ & Hl). congruence.
-Qed.
-
-Lemma replay_ok_d evs : forall s o s1,
-  seq_reachable s -> sim o s -> replay s evs = Some (s1, true) -> seq_hist s evs ->
-  o_ok_d (fold_left ostep evs o) = o_ok_d o.
-Proof.
-  induction evs as [|e r IH]; intros s o s1 Hsr Hs H Hq; cbn in H.
-  - reflexivity.
-  - destruct Hq as [Hq Hq']. destruct (step s (label_of e)) as [s2|] eqn:Es; [|discriminate].
-    destruct (replay s2 r) as [[s3 b]|] eqn:Er; [|discriminate].
-    injection H as -> Hb. apply Bool.andb_true_iff in Hb. destruct Hb as [Hok ->].
-    cbn [fold_left].
-    assert (Hr : reachable s) by (apply seq_reachable_reachable; exact Hsr).
-    assert (Hs2 : sim (ostep o e) s2).
-    { destruct e as [t c|t f k kc v|t|c].
-      - apply (sim_step_env o s (EStart t c) s2 Hs Es I).
-      - destruct (expected s t f) as [x|] eqn:Ex; [|discriminate]. apply triple_eqb_eq in Hok. subst x.
-        eapply sim_step_op; try eassumption. exact (inv_wf _ (Inv_reachable _ Hr)).
-      - apply (sim_step_env o s (ECrash t) s2 Hs Es I).
-      - apply (sim_step_env o s (EReset c) s2 Hs Es I). }
-    rewrite (IH s2 (ostep o e) s1); auto.
-    + destruct e as [t c|t f k kc v|t|c]; try reflexivity.
-      * destruct (expected s t f) as [x|] eqn:Ex; [|discriminate]. apply triple_eqb_eq in Hok. subst x.
-        eapply ok_d_step; eassumption.
-      * cbn [ostep]. destruct (o_last o t). reflexivity.
-    + eapply seq_next; eassumption.
-Qed.
-
-(** clause (d) — the recreate path never deletes a complete account the CA still knows — holds
-    on every sequential history on which model and observation agree (for concurrent histories
-    it is the known finding) *)
-Theorem monitor_sound_sequential evs s :
-  replay init evs = Some (s, true) -> seq_hist init evs -> o_ok_d (orun evs) = true.
-Proof.
-  intros H Hq. unfold orun. rewrite (replay_ok_d evs init oinit s seq_init sim_init H Hq). reflexivity.
-Qed.
-
-Corollary spec_hist_sound_sequential evs s f :
-  replay init evs = Some (s, true) -> final_agree s f = true -> seq_hist init evs ->
-  spec_hist evs f = true.
-Proof.
-  intros H Hf Hq. unfold spec_hist. destruct (monitor_sound evs s f H Hf) as [He Hc].
-  rewrite He, Hc, (monitor_sound_sequential evs s H Hq). reflexivity.
-Qed.
-
-(* non-vacuity: a sequential history with a re-installed CA, as the harness records it *)
-From CM Require Import Account.Examples.
-
-Definition ex_history : list event :=
-  [EStart 0 0; EOp 0 false 1 0 0; EOp 0 false 3 0 0; EOp 0 false 1 0 0; EOp 0 false 4 0 1;
-   EOp 0 false 5 0 1; EOp 0 false 6 0 1; EOp 0 false 9 0 0; EReset 0; EOp 0 false 10 0 1;
-   EOp 0 false 7 0 0; EOp 0 false 8 0 0; EOp 0 false 1 0 0; EOp 0 false 3 0 0; EOp 0 false 1 0 0;
-   EOp 0 false 4 0 2; EOp 0 false 5 0 2; EOp 0 false 6 0 2; EOp 0 false 9 0 0; EOp 0 false 10 0 0].
-Definition ex_final : final := Final [(2, 2, 2)] [(0, (2, 2))] true.
-
-Lemma seq_hist0 evs : forall s, only0 s -> forallb label0 (map label_of evs) = true -> seq_hist s evs.
-Proof.
-  induction evs as [|e r IH]; intros s H0 Hl; cbn in *; [exact I|].
-  apply Bool.andb_true_iff in Hl. destruct Hl as [Hl Hl']. split.
-  - unfold seq_ok. destruct (label_of e) as [[|?] ?|[|?] ?|[|?]|?]; cbn in *; try discriminate; auto;
-      intros t' Ht'; rewrite (H0 t' Ht'); reflexivity.
-  - destruct (step s (label_of e)) as [s2|] eqn:E; [|exact I]. apply IH; [|exact Hl'].
-    intros t Ht. destruct (label_tid (label_of e)) as [t0|] eqn:Et.
-    + assert (t0 = 0) by (destruct (label_of e) as [[|?] ?|[|?] ?|[|?]|?]; cbn in *; congruence). subst t0.
-      rewrite (thr_frame _ _ _ _ _ E Et Ht). apply H0. exact Ht.
-    + destruct (label_of e); cbn in Et; try discriminate. step_cases E. cbn. apply H0. exact Ht.
-Qed.
-
-Lemma model_agrees_hist evs f :
-  model_agrees (CHist evs f) = true ->
+Lemma model_agrees_hist evs f conf recs :
+  model_agrees (CHist evs f conf recs) = true ->
   exists s, replay init evs = Some (s, true) /\ final_agree s f = true.
 Proof.
   cbn. destruct (replay init evs) as [[s b]|]; [|discriminate]. intros H.
   apply Bool.andb_true_iff in H. destruct H as [-> H]. exists s. split; [reflexivity|exact H].
 Qed.
 
+(* non-vacuity: the history of the former known finding, as the harness records it on the
+   repaired code: threads 1 and 2 hold account 1 of a re-installed CA; thread 1 recreates
+   (account 2); thread 2 finds account 2 under the lock, deletes nothing and uses it *)
+Definition ex_history : list event :=
+  [EStart 0 0; EOp 0 false 1 0 0; EOp 0 false 3 0 0; EOp 0 false 1 0 0; EOp 0 false 4 0 1;
+   EOp 0 false 5 0 1; EOp 0 false 6 0 1; EOp 0 false 9 0 0; EOp 0 false 10 0 0;
+   EStart 1 0; EOp 1 false 1 0 1; EOp 1 false 2 0 1; EStart 2 0; EOp 2 false 1 0 1; EOp 2 false 2 0 1;
+   EReset 0;
+   EOp 1 false 10 0 1; EOp 1 false 3 0 0; EOp 1 false 1 0 1; EOp 1 false 2 0 1; EOp 1 false 7 0 0;
+   EOp 1 false 8 0 0; EOp 1 false 9 0 0; EOp 1 false 1 0 0; EOp 1 false 3 0 0; EOp 1 false 1 0 0;
+   EOp 1 false 4 0 2; EOp 1 false 5 0 2; EOp 1 false 6 0 2; EOp 1 false 9 0 0; EOp 1 false 10 0 0;
+   EOp 2 false 10 0 1; EOp 2 false 3 0 0; EOp 2 false 1 0 2; EOp 2 false 2 0 2; EOp 2 false 9 0 0;
+   EOp 2 false 1 0 2; EOp 2 false 2 0 2; EOp 2 false 10 0 0].
+Definition ex_final : final := Final [(2, 2, 2)] [(0, (1, 1)); (1, (2, 2)); (2, (2, 2))] true.
+
 Example ex_history_agrees :
-  model_agrees (CHist ex_history ex_final) = true /\ seq_hist init ex_history /\
-  spec_hist ex_history ex_final = true.
-Proof.
-  split; [vm_compute; reflexivity|]. split; [|vm_compute; reflexivity].
-  apply seq_hist0; [intros t _; reflexivity|reflexivity].
-Qed.
+  model_agrees (CHist ex_history ex_final false []) = true /\ spec_hist ex_history ex_final = true.
+Proof. split; vm_compute; reflexivity. Qed.
+
+(** ... and the monitor does reject the old behaviour: thread 2 deleting account 2 *)
+Definition ex_history_old : list event :=
+  firstn 32 ex_history ++ [EOp 2 false 7 0 0; EOp 2 false 8 0 0].
+Example ex_history_old_rejected :
+  o_ok_d (orun (firstn 31 ex_history)) = true /\ o_ok_d (orun ex_history_old) = false.
+Proof. split; vm_compute; reflexivity. Qed.
